@@ -125,6 +125,7 @@ type NetCfg struct {
 	ParallelLinks bool // a recurrent and a non-recurrent link on the same ordered pair (cyclic variant)
 	LongChains    bool // one net in fifteen is a long sparse chain (20-70 neurons, at most six shortcut links)
 	Rename        bool // one net in five gets its node ids permuted (sensors no longer first in the node list)
+	Wide          bool // one DAG in forty is wide and shallow: 100-300 hidden neurons between the sensors and the outputs
 	Dense         bool // one DAG in sixty is (almost) fully connected over 14-18 neurons: 10^4 - 10^5 simple paths
 	BigRecurrent  bool // one cyclic net in thirty is large and sparse (100-300 hidden neurons, many self loops)
 }
@@ -280,7 +281,52 @@ func drawDense(t *rapid.T) NetSpec {
 	return s
 }
 
+// drawWide: a wide, shallow feed-forward network (more neurons than any fixed-size buffer one might think of): every hidden
+// neuron is fed by one or two sensors and feeds one output; a few hidden neurons also feed a later hidden neuron.
+func drawWide(t *rapid.T) NetSpec {
+	s := NetSpec{ViaGenome: rapid.Bool().Draw(t, "via genome")}
+	nIn := rapid.IntRange(1, 3).Draw(t, "inputs")
+	nBias := rapid.IntRange(0, 1).Draw(t, "bias")
+	nOut := rapid.IntRange(1, 3).Draw(t, "outputs")
+	nHid := rapid.IntRange(100, 300).Draw(t, "hidden (wide)")
+	id := 1
+	for i := 0; i < nIn; i++ {
+		s.Nodes = append(s.Nodes, NetNode{Id: id, Role: roleInput, Act: 17})
+		id++
+	}
+	for i := 0; i < nBias; i++ {
+		s.Nodes = append(s.Nodes, NetNode{Id: id, Role: roleBias, Act: 17})
+		id++
+	}
+	nSensors := len(s.Nodes)
+	for i := 0; i < nOut; i++ {
+		s.Nodes = append(s.Nodes, NetNode{Id: id, Role: roleOutput, Act: rapid.SampledFrom([]int{1, 4, 11}).Draw(t, "act")})
+		id++
+	}
+	firstHidden := id
+	for i := 0; i < nHid; i++ {
+		s.Nodes = append(s.Nodes, NetNode{Id: id, Role: roleHidden, Act: rapid.SampledFrom([]int{1, 2, 4, 7, 11}).Draw(t, "act")})
+		id++
+	}
+	for i := 0; i < nHid; i++ {
+		h := firstHidden + i
+		a := rapid.IntRange(0, nSensors-1).Draw(t, "sensor")
+		s.Links = append(s.Links, NetLink{From: 1 + a, To: h, W: rapid.Float64Range(-2, 2).Draw(t, "w")})
+		if nSensors > 1 && rapid.IntRange(0, 3).Draw(t, "second sensor") == 0 {
+			s.Links = append(s.Links, NetLink{From: 1 + (a+1)%nSensors, To: h, W: rapid.Float64Range(-2, 2).Draw(t, "w")})
+		}
+		s.Links = append(s.Links, NetLink{From: h, To: nSensors + 1 + rapid.IntRange(0, nOut-1).Draw(t, "output"), W: rapid.Float64Range(-0.2, 0.2).Draw(t, "w")})
+		if i+1 < nHid && rapid.IntRange(0, 19).Draw(t, "to a later neuron") == 0 {
+			s.Links = append(s.Links, NetLink{From: h, To: h + 1 + rapid.IntRange(0, nHid-i-2).Draw(t, "later"), W: rapid.Float64Range(-1, 1).Draw(t, "w")})
+		}
+	}
+	return s
+}
+
 func drawNetPlain(t *rapid.T, cfg NetCfg) NetSpec {
+	if cfg.Wide && !cfg.Cyclic && rapid.IntRange(0, 39).Draw(t, "wide") == 11 {
+		return drawWide(t)
+	}
 	if cfg.Dense && !cfg.Cyclic && rapid.IntRange(0, 59).Draw(t, "dense") == 17 {
 		return drawDense(t)
 	}
